@@ -95,6 +95,11 @@ func genInjected(r *rng, thorough bool, mode string, emit func(FlowScenario)) {
 		p := flowParams{leaves: 2 + r.intn(6), batches: r.intn(2), depth: 1 + r.intn(4),
 			actions: []string{"a", "b", "c"}, maxVisits: 2 + r.intn(2),
 			pFail: 25, pPhaseFail: 0, funcStyle: true, runs: 1, wideBatch: mode == "fail"}
+		if mode == "fail" && i%3 == 0 {
+			// the same root is run AGAIN after the run with the injected failure: an earlier failure (at any depth) leaves
+			// nothing behind in the flow objects
+			p.runs = 2
+		}
 		sc := randFlow(r, p)
 		if mode == "cancel" {
 			sc.Kind = r.pick([]string{"canceled", "deadline", "deadline", "cause", "fardeadline", "child"})
@@ -433,6 +438,64 @@ func genBatchSeq(r *rng, thorough bool, emit func(FlowScenario)) {
 				emit(mk(cfg, bs))
 			}
 		}
+	}
+	// EQUAL payloads at several positions: every position is an item of its own (executed, and reported in its own slot).
+	// Budget 1, pass-through fallback; sequential / one worker: every position has its own script (the k-th execution of a
+	// payload is the k-th position carrying it); wider pools: equal payloads have equal scripts (any assignment is the same)
+	dups := 40
+	if thorough {
+		dups = 400
+	}
+	for rep := 0; rep < dups; rep++ {
+		n := 2 + r.intn(6)
+		conc := []int{0, 0, 1, 3}[r.intn(4)]
+		stop := conc <= 1 && r.chance(40)
+		shape := r.pick([]string{"results", "anys", "typed"})
+		t.next, t.errN = r.intn(30), r.intn(20)
+		cfg := BatchCfg{Budget: 1, Fb: "pass", Conc: conc, Stop: stop, ExecS: r.pick([]string{"res", "any"}), HasPost: true, Shape: shape,
+			Build: r.pick([]string{"option", "builder", "bare"})}
+		distinct := 1 + r.intn(2)
+		pool := []string{}
+		for i := 0; i < distinct; i++ {
+			switch shape {
+			case "typed":
+				t.next++
+				for t.next%8 != 1 {
+					t.next++
+				}
+				pool = append(pool, "t"+strconv.Itoa(t.next))
+			case "results":
+				pool = append(pool, "r"+t.tok())
+			default:
+				pool = append(pool, t.tok())
+			}
+		}
+		parts := make([]string, n)
+		bs := BatchScript{N: 0, V: 0, Post: "=done"}
+		shared := map[string]ItemScript{}
+		failAt := -1
+		if r.chance(35) {
+			failAt = r.intn(n)
+		}
+		for i := 0; i < n; i++ {
+			parts[i] = pool[r.intn(len(pool))]
+			var m uint = 3
+			if i == failAt && conc <= 1 {
+				m = 0
+			}
+			if conc >= 2 {
+				it, ok := shared[parts[i]]
+				if !ok {
+					it = t.itemScript(3, 2, false, cfg.ExecS)
+					shared[parts[i]] = it
+				}
+				bs.Items = append(bs.Items, it)
+			} else {
+				bs.Items = append(bs.Items, t.itemScript(m, 2, false, cfg.ExecS))
+			}
+		}
+		bs.Prep = strings.Join(parts, ",")
+		emit(mk(cfg, bs))
 	}
 	// single value / nil payloads and the empty batch (also with post returning the empty action)
 	for _, shape := range []string{"single", "nil", "results", "anys"} {
